@@ -196,6 +196,31 @@ def check_name_clashes(acc: Acc, ctx: Ctx) -> None:
         acc.violate("value", {"family": "variables"}, case, 6.0, got, "a Function without an engine mis-evaluates x * k")
 
 
+def check_comparisons(acc: Acc, ctx: Ctx) -> None:
+    """The six comparison functions are EXACT comparisons (NaN equal to NaN): all pairs over a near-tie lattice."""
+    inf = float("inf")
+    lattice = [1.0, 1.0 - 2.0**-53, 1.0 + 2.0**-52, 1.0 - 1e-9, 1.0 + 1e-9, 1.0 - 1e-6, 1.0 + 1e-6, 1.0 - 2.0**-12, 1.0 + 2.0**-12,
+               0.999, 1.001, 0.0, -0.0, 5e-324, 1e-9, -1e-9, 1e6, 1e6 + 1.0, NAN, inf, -inf]
+    same_val = lambda a, b: a == b or (a != a and b != b)  # noqa: E731
+    meaning = {"eq": lambda a, b: same_val(a, b), "neq": lambda a, b: not same_val(a, b), "gt": lambda a, b: a > b, "lt": lambda a, b: a < b,
+               "ge": lambda a, b: a >= b or same_val(a, b), "le": lambda a, b: a <= b or same_val(a, b)}
+    A, B = np.meshgrid(np.array(lattice), np.array(lattice), indexing="ij")
+    for name, fn in meaning.items():
+        term = fl.Function.create("f", f"{name} ( x , y )", ctx.engine)
+        term.variables = {"y": B.ravel()}
+        got_arr = np.asarray(term.membership(A.ravel()), dtype=float)
+        for k, (a, b) in enumerate(zip(A.ravel(), B.ravel())):
+            term.variables = {"y": float(b)}
+            got = float(term.membership(float(a)))
+            want = 1.0 if fn(float(a), float(b)) else 0.0
+            acc.transitions += 1
+            acc.case(("compare", name, k), nontrivial=a == a and b == b and a != b and abs(a - b) < 1e-2)
+            if got != want or float(got_arr[k]) != want:
+                acc.violate("value", {"family": "comparison", "function": name}, {"formula": f"{name} ( x , y )", "family": "comparison", "x": float(a), "y": float(b)},
+                            want, [got, float(got_arr[k])], f"{name}({float(a)!r}, {float(b)!r}) = {got} (array element {float(got_arr[k])}), the exact comparison gives {want}")
+                break
+
+
 def check_construction_paths(acc: Acc, ctx: Ctx) -> None:
     """`variables resolve to the engine's current input/output values` for Function terms of INPUT and OUTPUT variables of
     engines obtained through every construction path (constructor, FLL import, copy, Python export)."""
@@ -387,6 +412,7 @@ def run_shard(tier: str, seed: int, shard):
         acc.guard({"formula": "y ^ k", "family": "variables"}, check_own_variables, acc, ctx)
         acc.guard({"formula": "x + i", "family": "variables"}, check_name_clashes, acc, ctx)
         acc.guard({"formula": "2.000 * b + x", "family": "paths"}, check_construction_paths, acc, ctx)
+        acc.guard({"formula": "ge ( x , y )", "family": "comparison"}, check_comparisons, acc, ctx)
     if shard == ("d", 0, 8):
         toks = ["x", "-", "2.000", "^", ".-", "y", "^", "0.500", "%", "i"]
         t = F.parse(toks)
@@ -434,6 +460,9 @@ def replay(case: dict):
             pass
         except Exception as ex:  # noqa: BLE001
             acc.violate("ill-formed-internal-error", {"error": type(ex).__name__}, case, "SyntaxError", repr(ex), "internal")
+        return acc.violations
+    if case.get("family") == "comparison":
+        acc.guard(case, check_comparisons, acc, ctx)
         return acc.violations
     if case.get("family") == "paths":
         acc.guard(case, check_construction_paths, acc, ctx)
